@@ -120,7 +120,7 @@ def _pipeline_case(col, seed, c):
     sets = []; first = 0
     label = 'runs=%s kind=%s frame=%s chain=%s' % (c['runs'], kind, FRAMES[c['frame']][0], chain)
     for ri, (n, bs) in enumerate(c['runs']):
-        d = asys.make_set(n, 6, 2, seed, salt=ri, first=first); first += n; sets.append(d)
+        d = asys.make_set(n, 6, 2, seed, salt=ri, first=first, wide=(kind == 'reverse')); first += n; sets.append(d)      # reverse analyses are fed 16-bit values that outgrow 8 bits after a few rows
         cont_kw = {'preprocesses': [pp[name] for name in chain]}
         if frame is not None: cont_kw['frame'] = frame
         nrec = len(getattr(a, 'rec', []))
